@@ -218,22 +218,30 @@ def coq_make(target=None, timeout=3000):
     """(re)generate Gen/*.v from /repo via the translators, then make the .vo files (full build, no -vos).
     target: a .vo path relative to coq/ (with its dependency cone), or None for everything.
     returns (ok, log)"""
+    xlog = ""
+    try:
+        from lib import xlate
+        xlog = xlate.run_all()
+    except Exception as ex:  # translator failure = the source no longer has the shape the model assumes
+        return False, "translator failed: %r" % (ex,)
+    # fast path without the global lock: nothing to rebuild for this target
+    files0 = coq_files()
+    stamp0 = os.path.join(LOCKDIR, "coqfiles.txt")
+    if target and os.path.exists(os.path.join(COQ, "Makefile")) and os.path.exists(stamp0) \
+            and open(stamp0).read() == "\n".join(files0):
+        rc, o = sh("make -q %s" % target, cwd=COQ, timeout=600)
+        if rc == 0:
+            return True, xlog + "up to date\n"
     with Lock("coq"):
-        xlog = ""
-        try:
-            from lib import xlate
-            xlog = xlate.run_all()
-        except Exception as ex:  # translator failure = the source no longer has the shape the model assumes
-            return False, "translator failed: %r" % (ex,)
         files = coq_files()
         mk = os.path.join(COQ, "Makefile")
         listing = "\n".join(files)
-        stamp = os.path.join(BUILD, "coqfiles.txt")
+        stamp = os.path.join(LOCKDIR, "coqfiles.txt")
         if not os.path.exists(mk) or not os.path.exists(stamp) or open(stamp).read() != listing:
             rc, o = sh("coq_makefile -f _CoqProject %s -o Makefile" % " ".join(files), cwd=COQ)
             if rc != 0:
                 return False, o
-            os.makedirs(BUILD, exist_ok=True)
+            os.makedirs(LOCKDIR, exist_ok=True)
             open(stamp, "w").write(listing)
         tgt = target if target else ""
         rc, o = sh("make -j%d %s" % (NPROC, tgt), cwd=COQ, timeout=timeout)
